@@ -24,14 +24,14 @@ func c04Wrap(kind string, level int, inner string, iter int) string {
 		if iter == 2 {
 			body = K["if"] + " (" + v + " == 2) { " + inner + " }"
 		}
-		return Var(v, "0") + " " + K["while"] + " (" + v + " < 3) { " + v + " = " + v + " + 1; " + Print(v) + " " + body + " " + after + " }"
+		return Var(v, "0") + " " + K["while"] + ` (tr("cond-` + v + `", ` + v + " < 3)) { " + v + " = " + v + " + 1; " + Print(v) + " " + body + " " + after + " }"
 	case "for":
 		v := fmt.Sprintf("i%d", level)
 		body := inner
 		if iter == 2 {
 			body = K["if"] + " (" + v + " == 1) { " + inner + " }"
 		}
-		return K["for"] + " (" + Var(v, "0") + " " + v + " < 3; " + v + " = " + v + " + 1) { " + Print(v) + " " + body + " " + after + " }"
+		return K["for"] + " (" + Var(v, `tr("init-`+v+`", 0)`) + " " + `tr("cond-` + v + `", ` + v + " < 3); " + v + " = " + `tr("inc-` + v + `", ` + v + " + 1)) { " + Print(v) + " " + body + " " + after + " }"
 	}
 	panic(kind)
 }
@@ -45,6 +45,7 @@ func c04ReturnProgram(path []string, iter int, withValue bool) string {
 		inner = c04Wrap(path[l], l, inner, iter)
 	}
 	return Lines(
+		Fun("tr", "t, v", " "+Print("t")+" "+Ret("v")+" "),
 		Fun("f", "", "\n  "+Print(`"enter"`)+"\n  "+inner+"\n  "+Print(`"after-all"`)+"\n  "+Ret("99")+"\n"),
 		Print(`"before"`), Print("f()"), Print(`"done"`), Print("f()"))
 }
@@ -290,6 +291,15 @@ func c04Handwritten() []string {
 		Lines(Fun("adder", "a", " "+Fun("add", "b", " "+Ret("a + b")+" ")+" "+Ret("add")+" "), Print("adder(1)(2)"), Var("a5", "adder(5)"), Print("a5(10)"), Print("adder(100)(a5(1))")),
 		// accumulator closed over by several closures stored in an object
 		Lines(Fun("acc", "", " "+Var("total", "0")+" "+Fun("add", "x", " total = total + x; "+Ret("total")+" ")+" "+Fun("reset", "", " total = 0; "+Ret("total")+" ")+" "+Ret("{add: add, reset: reset}")+" "), Var("o1", "acc()"), Var("o2", "acc()"), Print("o1.add(5)"), Print("o1.add(6)"), Print("o2.add(1)"), Print("o1.reset()"), Print("o1.add(2)"), Print("o2.add(1)")),
+		// a return inside a for loop leaves at once: the increment does not run again
+		Lines(Var("pos", "0"), Fun("find", "", " "+For("pos = 0;", "pos < 5", "pos = pos + 1", "{ "+If("pos == 1", Ret("pos"))+" }")+" "+Ret("-1")+" "), Print("find()"), Print("pos")),
+		Lines(Var("ticks", "0"), Fun("tick", "", " ticks = ticks + 1; "+Ret("ticks")+" "), Fun("g", "", " "+For(Var("i", "0"), "i < 9", "i = tick()", "{ "+If("i == 3", Ret(`"found"`))+" }")+" "+Ret(`"none"`)+" "), Print("g()"), Print("ticks")),
+		Lines(Fun("g", "", " "+Var("n", "0")+" "+For(";", "", "n = n + 1", "{ "+If("n == 2", "{ "+Ret("n")+" }")+" }")+" "), Print("g()")),
+		// parameters may be named like built-ins and are then called / read like any binding
+		Lines(Fun("apply", B["len"]+", x", " "+Ret(B["len"]+"(x)")+" "), Fun("twice", "v", " "+Ret("v * 2")+" "), Print("apply(twice, 21)"), Print(BI("len", "[1, 2, 3]"))),
+		Lines(Fun("f", B["abs"], " "+Fun("inner", "", " "+Ret(B["abs"]+"(5)")+" ")+" "+Ret("inner()")+" "), Fun("neg", "v", " "+Ret("0 - v")+" "), Print("f(neg)"), Print(BI("abs", "-5"))),
+		Lines(Fun("f", B["pow"], " "+Print(B["pow"])+" "+Ret(B["pow"]+"(2, 3)")+" "), Print(`"before"`), Print("f(7)"), Print(`"not reached"`)),
+		Lines(Fun("f", B["clock"], " { "+Ret(B["clock"]+"()")+" } "), Fun("k", "", " "+Ret(`"from-param"`)+" "), Print("f(k)")),
 		// a function's name is an ordinary binding: rebinding it is not undone by calling the old value
 		Lines(Fun("f", "", " "+Ret("1")+" "), Var("g", "f"), "f = 5;", Print("g()"), Print("f"), Print("g()"), Print("f")),
 		Lines(Fun("price", "x", " "+Ret("x + 1")+" "), Var("old", "price"), "price = nil;", Print("old(1)"), Print("price"), "{", Fun("price", "x", " "+Ret("old(x) + 100")+" "), Print("price(1)"), Print("price(1)"), "}", Print("price")),
